@@ -49,7 +49,7 @@ ASSUMPTIONS = [
     "never assumed",
     "handlers raise subclasses of Exception (not BaseException: SystemExit/KeyboardInterrupt are outside the "
     "documented catch)",
-    "a handler may be any callable accepted by bind(): function, bound method, functools.partial, callable object",
+    "a handler may be any callable accepted by bind(): function, bound method, functools.partial, callable object, and may be bound with extra arguments of any type",
     "documented reaction to a raising intervention handler: C-STORE 0xC211, C-FIND 0xC311, C-GET 0xC411, C-MOVE "
     "0xC511 (docs/reference/status.rst), N-* 0x0110 Processing failure (service class docs), C-ECHO 0x0000 "
     "(VerificationServiceClass.SCP docstring), EVT_USER_ID -> association rejected, EVT_ASYNC_OPS / EVT_SOP_COMMON / "
@@ -146,7 +146,7 @@ EXC_NAMES = ["RuntimeError", "ValueError", "KeyError", "OSError", "TimeoutError"
              "StopIteration", "NotImplementedError", "queue.Empty", "AssertionError", "TypeError", "HandlerBoom",
              "ValueError:noargs", "AssertionError:noargs", "queue.Empty:noargs", "StopIteration:noargs", "RuntimeError:noargs",
              "OddStr", "OddRepr", "OddStr:noargs"]
-KINDS_NAMED = ["function", "method", "lambda"]          # callables with a __name__
+KINDS_NAMED = ["function", "method", "lambda", "args"]  # callables with a __name__; "args" = bound with extra non-string arguments (bind(evt, f, args))
 KINDS_UNNAMED = ["partial", "object"]                    # legitimate callables without a __name__
 
 
@@ -194,7 +194,10 @@ class C26Recorder(lifecycle.Recorder):
     def make(self, side, raise_mask=None):
         out = []
         for e, h in super().make(side, raise_mask):
-            out.append((e, self._wrap(side, e.name, h)))
+            if Cfg.kind == "args":
+                out.append((e, self._wrap(side, e.name, h), [7, {"k": None}, None, b"x"]))
+            else:
+                out.append((e, self._wrap(side, e.name, h)))
         return out
 
     @staticmethod
@@ -235,6 +238,10 @@ class C26Recorder(lifecycle.Recorder):
             return _Holder(g).handle
         if kind == "lambda":
             return lambda event: g(event)
+        if kind == "args":
+            def with_extra_args(event, *extra):
+                return g(event)
+            return with_extra_args
         return g
 
 
